@@ -187,21 +187,7 @@ func blockModelSuite(c *Ctx) {
 		// C06_ht_segments_wellformed on the Go bytes: no pair 0xFF,>0x8F, last byte != 0xFF, Scup in 2..min(Lcup,4079)
 		if k.Class != "overbudget" && len(blk) > 0 {
 			c.R.Oracle("ht_segment_wellformed")
-			bad := ""
-			for j := 0; j+1 < len(blk); j++ {
-				if blk[j] == 0xFF && blk[j+1] > 0x8F {
-					bad = fmt.Sprintf("marker FF%02X at %d", blk[j+1], j)
-					break
-				}
-			}
-			if blk[len(blk)-1] == 0xFF {
-				bad = "last byte 0xFF"
-			}
-			if len(blk) < 2 {
-				bad = "block shorter than 2 bytes"
-			} else if sc := int(blk[len(blk)-1])<<4 | int(blk[len(blk)-2]&0xF); sc < 2 || sc > len(blk) || sc > 4079 {
-				bad = fmt.Sprintf("Scup %d outside 2..min(%d,4079)", sc, len(blk))
-			}
+			bad := segmentDefect(blk)
 			if bad != "" {
 				c.R.Fail("oracle", "ht_segment_wellformed", "htblock:segment-malformed", bad, in)
 			}
